@@ -141,7 +141,7 @@ func (m *MethodEvaluator) parseKeyIdentifierToKeyWordT(
 	}
 
 	// test(a: 1)
-	if !t.IsTargetIdentifier(endIdentifier) && !t.IsCommaIdentifier() {
+	if t != nil && !t.IsTargetIdentifier(endIdentifier) && !t.IsCommaIdentifier() {
 		err = m.outerEval.Eval(m.parser, m.ctx, t)
 		if err != nil {
 			return nil, err
